@@ -397,6 +397,10 @@ func init() {
 			s.preemptSync = true
 			return nil, true
 		},
+		rtPkg + "NoTimers": func(e *Engine, s *State, f *Frame, fn *ssa.Function, args []Value, retIdx int, advance bool) (Value, bool) {
+			s.noTimers = true
+			return nil, true
+		},
 		rtPkg + "AllowMainBlock": func(e *Engine, s *State, f *Frame, fn *ssa.Function, args []Value, retIdx int, advance bool) (Value, bool) {
 			s.ghost["@allow-main-block"] = 1
 			return nil, true
